@@ -6,6 +6,7 @@ package main
 
 import (
 	"context"
+	"crypto/tls"
 	"fmt"
 	"net"
 	"sync"
@@ -17,6 +18,7 @@ import (
 
 	"verifharness/lib/dnsadv"
 	"verifharness/lib/leak"
+	"verifharness/lib/loopnet"
 )
 
 type silentServer struct {
@@ -167,4 +169,109 @@ func realSilentPeers() {
 		}(c)
 	}
 	wg.Wait()
+}
+
+// realCancelledCalls: every scheme NewUpstream knows (incl. DoH over h2 and h3
+// and DoQ, whose per-query reader goroutines live outside the fake-connection
+// cases) against a server that completes every handshake, reads the query and
+// never answers. Callers use short context deadlines: each call must return an
+// error within wCtx of its deadline; the upstream is then closed and the final
+// leak sweep of main() must find no goroutine of the upstream packages.
+func realCancelledCalls() {
+	pki, err := loopnet.NewPKI([]net.IP{net.ParseIP("127.0.0.1")}, []string{"localhost"})
+	if err != nil {
+		rep.Inconclusive("real-cancelled: pki: %v", err)
+		return
+	}
+	var seen sync.Map // scheme -> *atomic.Int64 queries the mute server received
+	mute := func(q []byte, proto string, connID int, reply func([]byte)) {
+		v, _ := seen.LoadOrStore(proto, new(atomic.Int64))
+		v.(*atomic.Int64).Add(1)
+	}
+	type rc struct {
+		scheme   string
+		pipeline bool
+		serve    func() (*loopnet.Server, error)
+	}
+	cases := []rc{
+		{"udp", false, func() (*loopnet.Server, error) { return loopnet.ServeUDP(mute) }},
+		{"tcp", false, func() (*loopnet.Server, error) { return loopnet.ServeTCP(mute) }},
+		{"tcp", true, func() (*loopnet.Server, error) { return loopnet.ServeTCP(mute) }},
+		{"tls", false, func() (*loopnet.Server, error) { return loopnet.ServeTLS(pki, mute) }},
+		{"tls", true, func() (*loopnet.Server, error) { return loopnet.ServeTLS(pki, mute) }},
+		{"https", false, func() (*loopnet.Server, error) { return loopnet.ServeDoH(pki, mute) }},
+		{"h3", false, func() (*loopnet.Server, error) { return loopnet.ServeDoH3(pki, mute) }},
+		{"quic", false, func() (*loopnet.Server, error) { return loopnet.ServeDoQ(pki, mute) }},
+	}
+	var wg sync.WaitGroup
+	for _, c := range cases {
+		wg.Add(1)
+		go func(c rc) {
+			defer wg.Done()
+			srv, err := c.serve()
+			if err != nil {
+				rep.Inconclusive("real-cancelled %s: cannot start server: %v", c.scheme, err)
+				return
+			}
+			defer srv.Close()
+			url := srv.URL(c.pipeline)
+			name := c.scheme
+			if c.pipeline {
+				name += "+pipeline"
+			}
+			u, err := upstream.NewUpstream(url, upstream.Opt{TLSConfig: &tls.Config{RootCAs: pki.Pool}})
+			if err != nil {
+				rep.Inconclusive("real-cancelled %s: NewUpstream: %v", name, err)
+				return
+			}
+			caselog.Log(map[string]any{"real_cancelled_calls": name})
+			const callers = 6
+			var cw sync.WaitGroup
+			for i := 0; i < callers; i++ {
+				cw.Add(1)
+				go func(i int) {
+					defer cw.Done()
+					rep.Eval(1)
+					seq := int(seqCtr.Add(1))
+					d := time.Duration(60+60*i) * time.Millisecond
+					ctx, cancel := context.WithTimeout(context.Background(), d)
+					defer cancel()
+					done := make(chan error, 1)
+					go func() {
+						r, err := u.ExchangeContext(ctx, dnsadv.Query(uint16(seq), seq, 1, "c07", 1))
+						if err == nil {
+							pool.ReleaseBuf(r)
+						}
+						done <- err
+					}()
+					wit := map[string]any{"scheme": name, "ctx_timeout_ms": d.Milliseconds()}
+					select {
+					case err := <-done:
+						if err == nil {
+							rep.Violation("reply-from-nowhere-real-"+name, "exchange against a server that never answers returned success", wit)
+						} else {
+							rep.Count("real_cancelled_calls_returned_with_error", 1)
+							rep.Nontrivial(fmt.Sprintf("real-cancelled|%s|%d", name, i))
+						}
+					case <-time.After(d + wCtx):
+						wit["goroutines"] = trunc(leak.Full(), 60000)
+						rep.Violation("call-did-not-return-real-"+name+"-ctx-deadline", fmt.Sprintf("exchange still blocked %.0f s after its context deadline (server never answers)", wCtx.Seconds()), wit)
+					}
+				}(i)
+			}
+			cw.Wait()
+			closed := make(chan struct{})
+			go func() { u.Close(); close(closed) }()
+			select {
+			case <-closed:
+			case <-time.After(wCtx):
+				rep.Violation("close-did-not-return-real-"+name, "upstream Close() still blocked after 10 s", map[string]any{"scheme": name})
+			}
+		}(c)
+	}
+	wg.Wait()
+	seen.Range(func(k, v any) bool {
+		rep.Count("real_cancelled_queries_seen_by_mute_server:"+k.(string), v.(*atomic.Int64).Load())
+		return true
+	})
 }
